@@ -1652,13 +1652,20 @@ func TestC13(t *testing.T) {
 
 	// Oracle hits and disagreements have separate budgets: a change that makes model and
 	// implementation differ on many cases must not end the search for a concrete failing input.
+	// Each distinct oracle statement is shrunk and reported up to three times, so that one kind of
+	// failure does not hide another one.
 	oracleHits, disagreements := 0, 0
-	searching := func() bool { return oracleHits < 10 }
+	perWhat := map[string]int{}
+	searching := func() bool { return oracleHits < 300 && run.Findings() < 40 }
 	handle := func(name string, script []string) caseResult {
 		res := runCase(run, model, name, script, true)
 		found := res.found
 		if res.what != "" {
 			oracleHits++
+			perWhat[res.what]++
+			if perWhat[res.what] > 3 {
+				return res
+			}
 		} else if !res.agree {
 			disagreements++
 			if disagreements > 3 {
